@@ -221,7 +221,9 @@ CHECKS = {
         "enum and variant lookups and common_base_class are queried for all subject pairs and pool names and compared with a BFS over the "
         "JSON description; every query must finish within a CPU budget. Members carry types (some unresolvable); a quarter of the graphs "
         "span several modules with same-named distinct classes and modules imported twice, and every name is resolved through the import "
-        "list and through a pushed import stack (the two must agree); the descriptions reach a module in 1, 2, 3 or n extend() batches.",
+        "list and through a pushed import stack (the two must agree); the descriptions reach a module in 1, 2, 3 or n extend() batches. "
+        "Class graphs made of QML component files on disk (directories importing each other by string in several spellings of the same "
+        "path, diamonds, cycles) are populated as generate-ui does and is_derived_from is compared for all pairs of components.",
         "Termination is restated as bounded progress (10 s CPU per job; observed maximum well below 1 ms per query).",
         "DESIGN.md §4 C17",
     ),
